@@ -305,6 +305,24 @@ func build(r *hlib.Rand, ps pktSpec) []byte {
 	if ps.mut == mutTruncate && len(p) > 1 {
 		p = p[:1+r.Intn(len(p)-1)]
 	}
+	if ps.mut == mutShortL4 {
+		// a transport header cut short *with a consistent IP length*: the packet passes newPacket and the IP
+		// prologue and reaches parseTail, whose length guards are then the only thing between it and an
+		// out-of-range slice (4..7 bytes of UDP header, 4..19 of TCP, a TCP header shorter than its data offset)
+		iph := 20
+		if f.v6 {
+			iph = 40
+		}
+		k := hlib.Pick(r, 4, 5, 6, 7, 8, 9, 12, 13, 14, 19, 20, 21, 23, 24)
+		if iph+k < len(p) && (p[0] == 0x45 || p[0]>>4 == 6) {
+			p = p[:iph+k]
+			if f.v6 {
+				binary.BigEndian.PutUint16(p[4:], uint16(k))
+			} else {
+				binary.BigEndian.PutUint16(p[2:], uint16(iph+k))
+			}
+		}
+	}
 	for i := 0; i < ps.trailer; i++ {
 		p = append(p, byte(r.U64()))
 	}
@@ -331,6 +349,7 @@ const (
 	mutV4IHLSmall
 	mutVersion
 	mutTruncate
+	mutShortL4
 	mutCount
 )
 
@@ -514,6 +533,9 @@ func genBatch(r *hlib.Rand, big bool, ctr map[uint64]uint64) []staged {
 			}
 			if r.Chance(1, 14) {
 				ps.mut = 1 + r.Intn(mutCount-1)
+			}
+			if r.Chance(1, 60) {
+				ps.mut = mutShortL4
 			}
 			if r.Chance(1, 25) {
 				ps.trailer = 1 + r.Intn(6)
